@@ -13,7 +13,7 @@ EXPLANATION = (
     "index 0 before the sort and restored to index 0 after it; (R-GROUP) a new group is started exactly on: no previous part, previous part not a require group, different kind, or line distance > 1; (R-SORTGUARD) the sort is reached only if every member is Normal; (R-SKIP d) the Context used to ask should_format_node "
     "for group members is threaded through check_toggle_formatting; (R-GROUPFILL) groups only receive "
     "LocalAssignment statements. Not decided: the permutation property itself (that the output is the stable name-ordered permutation)."
-    "Later rounds: (R-SORT(toggle)) every emit of a partition's statements follows a walk showing them to check_toggle_formatting, and the toggle calls of the walk share one state; (R-ARMS) frozen feature-gated arms of the sorter's predicates. Round 22: (R-GROUP(total)) no statement is left out of the partitions.")
+    "Later rounds: (R-SORT(toggle)) every emit of a partition's statements follows a walk showing them to check_toggle_formatting, and the toggle calls of the walk share one state; (R-ARMS) frozen feature-gated arms of the sorter's predicates. Round 22: (R-GROUP(total)) no statement is left out of the partitions. Round 23: (R-GROUP(pairend)) the adjacency of two requires is measured from end_position() of the (statement, semicolon) pair (Self type of the resolved Node::end_position call).")
 ASSUMPTIONS = ["slice::sort_by_key is stable (std contract)", "rustc MIR and Instance::try_resolve are trusted"]
 
 REORDER = re.compile(r"::(sort|sort_by|sort_by_key|sort_by_cached_key|sort_unstable|sort_unstable_by|"
@@ -327,12 +327,42 @@ def rule_pairs(ctx, prop):
         rep.floor("functions of the sorter scanned", len(fns), 3, cfg)
     return rep
 
+def rule_group_pairend(ctx, prop):
+    """R-GROUP(pairend): the line distance to the next statement is measured from the end of the previous member *with its
+    semicolon* - end_position() of the (Stmt, Option<TokenReference>) pair, not of the statement alone"""
+    rep = Report(prop, "R-GROUP(pairend)", "in partition_nodes_into_groups every Node::end_position call is the one of the "
+                                           "(statement, semicolon) pair: a `;` on a line of its own belongs to the previous require")
+    for cfg, prog in ctx.programs.items():
+        fs = [f for f in prog.fns("stylua_lib") if f.path == "sort_requires::partition_nodes_into_groups"
+              or f.path.startswith("sort_requires::partition_nodes_into_groups::{closure")]
+        if not rep.anchor(bool(fs), "partition_nodes_into_groups", cfg):
+            continue
+        n = 0
+        for f in fs:
+            for b, t in f.calls():
+                full = t.get("rfn") or t.get("fn") or ""
+                if not full.endswith("Node>::end_position"):
+                    continue
+                n += 1
+                self_ty = full.split(" as ")[0].lstrip("<")
+                ok = self_ty.startswith("(") and "Stmt" in self_ty and "Option<" in self_ty and "TokenReference" in self_ty
+                rep.inst(f"{f.key} end_position of {self_ty}", {"at": f.loc(t["sp"])}, cfg, ok=ok)
+                if not ok:
+                    rep.violation(f"{f.key} adjacency-measured-from-statement-without-semicolon {self_ty.split('::')[-1]}",
+                                  f"{f.path} measures the distance to the next statement from end_position() of `{self_ty}`, not of "
+                                  f"the (statement, semicolon) pair: `local b = require(\"b\")` / `;` on its own line / `local a = "
+                                  f"require(\"a\")` is split into two groups and comes out unsorted", f.loc(t["sp"]), cfg,
+                                  witness={"input": 'local bee = require("b")\n;\nlocal ah = require("a")\n'})
+        rep.floor("end_position calls in the grouping", n, 1, cfg)
+    return rep
+
+
 def run(ctx):
     import r_exh
     sub = Report("C12", "R-GROUPFILL", "require groups only receive LocalAssignment statements")
     for cfg, prog in ctx.programs.items():
         r_exh._groupfill(prog, sub, cfg)
-    return [rule_pairs(ctx, "C12"), rule_sort(ctx, "C12"), rule_group(ctx, "C12"), r_skip.rule_toggle(ctx, "C12"), r_skip.rule_sort_guard(ctx, "C12"), r_skip.rule_node_type(ctx, "C12"), sub, r_arms.rule_arms(ctx, "C12", only=r"^sort_requires::"), r_skip.rule_sort_emit(ctx, "C12"), rule_group_total(ctx, "C12")]
+    return [rule_pairs(ctx, "C12"), rule_sort(ctx, "C12"), rule_group(ctx, "C12"), r_skip.rule_toggle(ctx, "C12"), r_skip.rule_sort_guard(ctx, "C12"), r_skip.rule_node_type(ctx, "C12"), sub, r_arms.rule_arms(ctx, "C12", only=r"^sort_requires::"), r_skip.rule_sort_emit(ctx, "C12"), rule_group_total(ctx, "C12"), rule_group_pairend(ctx, "C12")]
 
 
 def rule_group_total(ctx, prop):
